@@ -5,7 +5,7 @@ import os
 import sys
 import traceback
 
-from vf import common
+from vf import common, symex
 
 
 def main():
@@ -25,7 +25,7 @@ def main():
     try:
         rep = common.Report(pid, a.tier)
         return mod.check(rep)
-    except Exception:
+    except (Exception, symex.Infeasible, symex.Cut):
         traceback.print_exc()
         print(f"INCONCLUSIVE property={pid}: harness error")
         return common.EXIT_INCONCLUSIVE
